@@ -392,7 +392,7 @@ class Translator:
                 self.type_seen[name] = True
                 self.type_defs.append((name, 'struct %s { %s e[%d]; };' % (name, el.c, n)))
             return CType('struct ' + name, 'array', elem=el, n=n, name=name)
-        m = re.match(r'^std::vector<(.*)>$', t)
+        m = re.match(r'^(?:std::)?vector<(.*)>$', t)      # clang prints nested template arguments of instantiations unqualified
         if m:
             a = split_targs(m.group(1))
             el = self._ctype_noref(a[0], tu, node)
@@ -624,6 +624,8 @@ class Translator:
         """clang prints types of template instantiations with unqualified names (unique_ptr<Interface>): put back the
         qualified template arguments of the instantiation"""
         for targ in self.template_args(node):
+            if '<' in targ or '(' in targ:
+                continue          # only plain qualified class names are put back
             short = targ.split('::')[-1]
             if '::' in targ and re.search(r'(?<![:\w])' + re.escape(short) + r'(?![\w])', qt) and targ not in qt:
                 qt = re.sub(r'(?<![:\w])' + re.escape(short) + r'(?![\w])', targ, qt)
